@@ -9,7 +9,7 @@
    [la c]      answer of ListObjects(store, can_call_get_store) on the control store;
    [granted g c r s mods] = g c r (OStore s) = Some true \/
         (mods <> [] /\ |mods| <= max_modules_in_request /\ forall m in mods, g c r (OModule s m) = Some true). *)
-From OFGA Require Import Base.Bytes Generated.C26Tables Sec.Authz Sec.AuthzProofs.
+From OFGA Require Import Base.Bytes Generated.C26Tables Sec.Authz Sec.AuthzHandlers Sec.AuthzProofs.
 From Coq Require Import String.
 Open Scope N_scope.
 
@@ -120,6 +120,25 @@ Print Assumptions relation_table_total.
 Theorem relation_table_spec : forall m : api_method, relation_of m = Some (spec_relation m).
 Proof. exact AuthzProofs.relation_table_spec. Qed.
 Print Assumptions relation_table_spec.
+
+(* ... and the transcription is the source: regenerated switch = transcribed switch (method
+   names, order, relation names), every source method has a clause, constants and limit agree *)
+Theorem relation_table_matches_source : gen_relation_table = model_relation_table.
+Proof. exact AuthzProofs.relation_table_matches_source. Qed.
+Print Assumptions relation_table_matches_source.
+
+Theorem source_relation_table_total :
+  forallb (fun e => match snd e with Some _ => true | None => false end) gen_relation_table = true.
+Proof. exact AuthzProofs.source_relation_table_total. Qed.
+Print Assumptions source_relation_table_total.
+
+Theorem relations_match_source : map snd gen_relations = map relation_bytes all_relations.
+Proof. exact AuthzProofs.relations_match_source. Qed.
+Print Assumptions relations_match_source.
+
+Theorem max_modules_matches_source : gen_max_modules = max_modules_in_request.
+Proof. exact AuthzProofs.max_modules_matches_source. Qed.
+Print Assumptions max_modules_matches_source.
 Example relation_table_ex :
   relation_of M_StreamedListObjects = Some R_CanCallListObjects /\
   relation_bytes R_CanCallListObjects = [99; 97; 110; 95; 99; 97; 108; 108; 95; 108; 105; 115; 116; 95; 111; 98; 106; 101; 99; 116; 115].
@@ -269,7 +288,9 @@ Theorem spec_allowed_is_authorize : forall g cl m s mods,
 Proof. exact AuthzProofs.spec_allowed_is_authorize. Qed.
 Print Assumptions spec_allowed_is_authorize.
 
-(* the flag table the extracted oracle reads is the computed form of its definition *)
-Theorem handler_flags_computed : handler_flags = handler_flags_def.
-Proof. exact AuthzProofs.handler_flags_computed. Qed.
-Print Assumptions handler_flags_computed.
+(* the pinned handler lists the extracted oracle reads are what the regenerated table says *)
+Theorem pinned_handlers_match_source :
+  map (fun h => bytes_of_string (h_name h)) (filter h_store_scoped c26_handlers) = spec_store_scoped_handlers /\
+  map (fun h => bytes_of_string (h_name h)) (filter tr_model_read_before_authz c26_handlers) = spec_model_first_handlers.
+Proof. exact AuthzProofs.pinned_handlers_match_source. Qed.
+Print Assumptions pinned_handlers_match_source.
